@@ -12,7 +12,7 @@ import (
 
 func init() {
 	register("C01", &propCheck{
-		explain: "Decides the ordering/ownership skeleton of 'traffic only after every new target passed a probe': (R01.1) in the deploy routine every publication of the new balancer (slot update, table install) is dominated by the nil-error branch of the all-targets health wait on the same balancer value and the failing branch returns a non-nil error after disposing it; (R01.2) complete who-may-write/who-may-call inventory for the balancer slots, UpdateLoadBalancer, ServiceMap.Set, NewLoadBalancer, MarkAllHealthy; (R01.3) the wait is a conjunction over all targets; (R01.4) the Target typestate extracted from every store to Target.state: only a successful probe promotes, failure never does, becameHealthy is closed only on adding->healthy; (R01.5) probe success is exactly 'no transport error and status in [200,299]' under a timeout context; (R01.6) the rotation is only ever filled with targets whose State()==healthy and claims only come from the rotation. Every path of those functions is covered (dominance on SSA), not sampled schedules.",
+		explain:    "Decides the ordering/ownership skeleton of 'traffic only after every new target passed a probe': (R01.1) in the deploy routine every publication of the new balancer (slot update, table install) is dominated by the nil-error branch of the all-targets health wait on the same balancer value and the failing branch returns a non-nil error after disposing it; (R01.2) complete who-may-write/who-may-call inventory for the balancer slots, UpdateLoadBalancer, ServiceMap.Set, NewLoadBalancer, MarkAllHealthy; (R01.3) the wait is a conjunction over all targets; (R01.4) the Target typestate extracted from every store to Target.state: only a successful probe promotes, failure never does, becameHealthy is closed only on adding->healthy; (R01.5) probe success is exactly 'no transport error and status in [200,299]' under a timeout context; (R01.6) the rotation is only ever filled with targets whose State()==healthy and claims only come from the rotation. Every path of those functions is covered (dominance on SSA), not sampled schedules.",
 		notDecided: []string{"'within the deploy timeout' as elapsed time (the bounded-wait shape is under C17)", "behaviour of net/http client and timers"},
 		run:        checkC01,
 	})
@@ -25,9 +25,9 @@ type deployShape struct {
 	newLB    *ssa.Call // NewLoadBalancer(...)
 	wait     *ssa.Call // lb.WaitUntilHealthy(...)
 	waitErr  ssa.Value
-	update   *ssa.Call // service.UpdateLoadBalancer(lb, slot)
+	update   *ssa.Call   // service.UpdateLoadBalancer(lb, slot)
 	restores []*ssa.Call // service.UpdateLoadBalancer(replaced, slot): undo on a failing path
-	install  *ssa.Call // r.installService(service)
+	install  *ssa.Call   // r.installService(service)
 	instErr  ssa.Value
 	replaced ssa.Value
 }
@@ -554,6 +554,42 @@ func r014(c *Ctx) {
 						ok = true
 						how = "through local flag '" + cell.Comment + "' set only under success==true and state==adding"
 					}
+				}
+			}
+			if !ok {
+				// or on an observed transition: the state read was adding and the state stored after it (what the typestate
+				// obligations above constrain: only a successful probe stores healthy over adding) is healthy
+				healthy := c.enumVal(c.server, "TargetStateHealthy")
+				var prevLoad ssa.Instruction
+				isNew := false
+				for pass := 0; pass < 2; pass++ {
+					for _, ce := range dominatingConds(cs.instr.Block()) {
+						cm, isCmp := ce.asCmp()
+						if !isCmp || cm.op != token.EQL {
+							continue
+						}
+						for _, pr := range [][2]ssa.Value{{cm.x, cm.y}, {cm.y, cm.x}} {
+							k, isK := constInt(pr[1])
+							if !isK {
+								continue
+							}
+							v := resolve(pr[0])
+							if k == adding && isLoadOfField(v, stateF) {
+								prevLoad, _ = v.(ssa.Instruction)
+							}
+							if k == healthy {
+								for _, w := range c.writesOfField(stateF) {
+									if outer(w.fn) == hcc && w.val != nil && resolve(w.val) == v && prevLoad != nil && prevLoad.Parent() == w.fn && dominates(prevLoad, w.instr) {
+										isNew = true
+									}
+								}
+							}
+						}
+					}
+				}
+				if prevLoad != nil && isNew {
+					ok = true
+					how = "on the observed transition: state read == adding and the state stored after it == healthy"
 				}
 			}
 			c.ob(rule, "close(becameHealthy) in "+fname(outer(fn)), cs.pos(), okOwner && ok, true,
